@@ -38,9 +38,11 @@ class NDCubeSequenceBase:
         self.data = data_list
         self.meta = meta
         if common_axis is not None:
-            self._common_axis = int(common_axis)
-        else:
-            self._common_axis = common_axis
+            common_axis = int(common_axis)
+            if common_axis < 0 and len(data_list) > 0:
+                # Counted from the last cube axis, as numpy does.
+                common_axis += len(data_list[0].shape)
+        self._common_axis = common_axis
 
     @property
     def dimensions(self):
